@@ -64,7 +64,13 @@ def make_case(seed, shard, i):
     from vfy import cps
 
     methods = cps.METHODS + ["next_paths:collect", "next_by_line:collect"]
-    return {"members": members, "rows": rows, "method": methods[i % len(methods)]}
+    cps_policy = None
+    if r.random() < 0.1:
+        # a member that fails outside match evaluation (unknown function) in a run whose CsvPaths-level policy does not
+        # raise: the run goes on, and the archive must still say what happened to every member
+        members.insert(r.randint(0, len(members)), {"prog": {"scan": "*", "comps": [["fn", "nosuchfunction", [], []]], "mode": "AND"}, "ident": f"broken{i}" if r.random() < 0.6 else None, "extra": ""})
+        cps_policy = ["collect", "print"]
+    return {"members": members, "rows": rows, "method": methods[i % len(methods)], "csvpaths_policy": cps_policy}
 
 
 def run_case(case, agg):
@@ -72,7 +78,7 @@ def run_case(case, agg):
 
     members, rows, method = case["members"], case["rows"], case["method"]
     cps.reset_sandbox()
-    env.write_config(".", csvpath_policy=["collect", "print"])
+    env.write_config(".", csvpath_policy=["collect", "print"], csvpaths_policy=case.get("csvpaths_policy"))
     cs = env.new_csvpaths()
     cps.add_file(cs, "data", rows)
     texts = [cps.member_text(m["prog"], ident=m["ident"], extra_comment=m["extra"]) for m in members]
